@@ -4,7 +4,7 @@ which bounded exhaustive contracts (BEC) decide it, and what the evidence says a
 TRUSTED = {
     'A1': 'A1 f64 is IEEE-754, total and deterministic: add/sub/mul/div preconditions hold and obeys_*_spec hold for f64 (vstd leaves them undetermined); '
           'float VALUES stay uninterpreted — contracts apply the same operations to the same operands in the same order as the code',
-    'A2': 'A2 ch_width(c) == chw(c) with chw(c) <= len_utf8(c): abstract in Verus, discharged for every char by Kani harness K1 (loop-free, full domain; K1 also checks chw(\' \') == 1, used by C20\'s width theorem) '
+    'A2': 'A2 (discharged) ch_width(c) == chw(c) with chw(c) <= len_utf8(c): abstract in Verus, discharged for every char by Kani harness K1 (loop-free, full domain; K1 also checks chw(\' \') == 1, used by C20\'s width theorem) '
           'and by the exhaustive scalar enumeration of BEC contract C10.display_width.scalar',
     'A3': 'A3 allocation bound: a str/String has at most isize::MAX bytes, a Vec at most isize::MAX elements',
     'A4': 'A4 documented std behaviour of the transparent wrappers (vx_* functions whose body is the std call: slicing, find, trim_end_matches, split, '
@@ -15,7 +15,7 @@ TRUSTED = {
           'cargo registry), for every callback — no monotonicity needed —, together with the fact that no write touches the finished prefix shown to the callback, and for n <= 2^63 + 1 (beyond that the crate\'s own `finished + rows.len()` could overflow); U2 restates it. '
           'That the table holds column MINIMA additionally needs total monotonicity, which nobody proves (optimality is bounded-only). '
           'The bounded contract A6.smawk.call_shape still checks the shape on the compiled crate (C03, C06)',
-    'A7': 'A7 LineNumbers (RefCell memo of line numbers): PROVED in unit U23 (rewrite R17: RefCell<Vec> verified as a Vec behind &mut self; no two borrows overlap): `new` establishes and '
+    'A7': 'A7 (discharged as far as safety goes) LineNumbers (RefCell memo of line numbers): PROVED in unit U23 (rewrite R17: RefCell<Vec> verified as a Vec behind &mut self; no two borrows overlap): `new` establishes and '
           'every `get` — on ANY back-pointer table of smawk\'s shape and any i inside it — preserves the table-independent invariant "entry j <= j", under which get terminates and can neither '
           'index out of bounds nor overflow; and when the memo matches the table, get returns the number of back-pointer hops (the line number) and the memo keeps matching. '
           'In U2 the call stays abstract (any usize) because the memo sits behind &self: that the safety invariant holds at every call is the induction over the calls made by one cost closure '
@@ -24,10 +24,10 @@ TRUSTED = {
     'A8': 'A8 (discharged) termination of the loops of display_width and strip_ansi_escape_sequences is now PROVED: Verus forbids the prophetic remaining() in a decreases '
           'clause, so a ghost counter starts at the number of characters and the invariant remaining().len() <= counter shows every iteration consumes at least one; no '
           'exec_allows_no_decreases_clause is left anywhere',
-    'A9': 'A9 restated callee contracts: Verus runs one file per unit, so a callee proved in another unit appears in the caller\'s unit as an external_body function whose '
-          'contract is restated (table and audit in DESIGN.md §2.8): the tiling and cached-width contracts of find_words (proved in U13 / U20), split_words (U14), '
-          'break_words (U6) and break_apart (U15), Word::from (U6), the partition contract of the line breakers (U1, U2, U17), split_points (U16), display_width / strip / '
-          'the ANSI skipper (U3), wrap\'s shortcut (U11). Each is also an executable BEC contract on the real callee (C11/C12/C06/C10 contracts)',
+    'A9': 'A9 restated callee contracts: Verus runs one file per unit, so a callee proved in another unit appears in the caller\'s unit as an external_body function (or an axiom) whose '
+          'contract is restated; every such link is listed and audited in DESIGN.md §2.8 (the word pipeline into U11, break_apart into U6, Word::from, the line breakers and the dispatch, '
+          'split_points into U14, display_width / strip / the ANSI skipper from U3, wrap\'s shortcut into U12, the ASCII word finder and first-fit into U10, smawk from U24 into U2). '
+          'Each link that concerns textwrap code is also an executable BEC contract on the real callee (C11/C12/C06/C10 contracts)',
     'A10': 'A10 (discharged) char-boundary safety of &line[idx..idx+len] in wrap\'s reassembly is now PROVED in U11 (the seam between valid UTF-8 pieces is a char boundary), '
            'and String::from_utf8(..).unwrap() in fill_inplace is proved not to fail in U10 (overwriting an ASCII byte by an ASCII byte keeps UTF-8 validity)',
     'A11': 'A11 stated preconditions: wrap_optimal_fit: fragments.len() <= isize::MAX (true of every slice of non-zero-sized fragments; for a zero-sized fragment type the Vec of prefix sums could not be allocated); wrap_columns: columns <= isize::MAX and '
@@ -42,7 +42,7 @@ TRUSTED = {
            'char boundaries inside the word; a WordSeparator::Custom function returns words that tile the line, with spaces-only whitespace, no penalty and cached widths equal to their display widths (their authors\' obligations; the properties quantify over the built-in separators)',
     'R16': 'R16 closure conversion: the body of an `iter::from_fn(move || …)` closure is verified as the `next` method of a struct holding the captured variables '
            '(same tokens, captures prefixed by `self.`); that `collect()` calls `next` until None and keeps the items in order is std behaviour (A4)',
-    'A16': 'A16 IEEE-754 binary64 is exact on small integers (used only for C05\'s "the slow path does what the shortcut does" under first-fit): for usize a, b with a + b < 2^53, '
+    'A16': 'A16 (discharged) IEEE-754 binary64 is exact on small integers (used only for C05\'s "the slow path does what the shortcut does" under first-fit): for usize a, b with a + b < 2^53, '
            'u2f(a) + u2f(b) == u2f(a + b); the conversion usize -> f64 is monotone (a <= b implies not u2f(a) > u2f(b)); u2f(0) == 0.0; and the target is 64-bit (every integer below '
            '2^53 is a usize). Stated as axioms in U17 because Verus has no float theory; DISCHARGED bit-precisely for every pair of usize values by Kani harness K3 (loop-free, full domain; the conversion is taken from the real Fragment accessor Word::width()). What stays assumed is only that Verus\' uninterpreted u2f / fadd / fgt denote the machine operations K3 checks',
     'A17': 'A17 determinism of the word pipeline: in U11 each restated callee contract (find_words, split_words, break_words, Word::from, WrapAlgorithm::wrap) also says '
@@ -54,6 +54,10 @@ TRUSTED = {
            '"\\n" and "\\r\\n", the pieces of a ++ sep ++ b are those of a followed by those of b are PROVED for that model (split_no_sep, split_concat)',
     'R17': 'R17 RefCell<Vec<usize>> is verified as a plain Vec behind &mut self (LineNumbers): every borrow()/borrow_mut() is a temporary that dies within its own '
            'statement and none overlaps another or the recursive call, so the dynamic borrow checks cannot fail',
+    'R18': 'R18 (unit U24, the smawk source): `for (c, &x) in S.iter().enumerate().filter(|(c, _)| c % 2 == 0)` is verified as the loop over the even indices below S.len(), in order '
+           '(what enumerate + filter yield); the local `macro_rules! m` is expanded by hand at its four uses — its definition is matched literally, so any change to it leaves the unit '
+           'undecided rather than verified against a stale expansion; the inline closure handed to smawk_inner is bound to a local and given parameter types',
+    'R19': 'R19 see R18',
     'R15': 'R15 generic parameters are verified at one instance: Opt = Options<\'a> (Into is the identity there), I = Vec<Word<\'a>>',
 }
 
@@ -69,7 +73,7 @@ KANI = {'K1.default': K1, 'K1.no-default-features': K1MIN, 'K2.first_fit_n3': K2
 
 PROPS = {
     'C01': {
-        'units': ['U11', 'U6', 'U1', 'U13', 'U14', 'U15', 'U17', 'U20'], 'level': 'other', 'trusted': ['A1', 'A3', 'A4', 'A5', 'A9', 'A10', 'A12', 'A14', 'A15', 'A17', 'R15', 'R16'],
+        'units': ['U11', 'U6', 'U1', 'U2', 'U12', 'U13', 'U14', 'U15', 'U17', 'U20'], 'level': 'other', 'trusted': ['A1', 'A3', 'A4', 'A5', 'A9', 'A10', 'A12', 'A13', 'A14', 'A15', 'A17', 'R15', 'R16'],
         'proved_part': 'Verus (all inputs), for the whole text: wrap returns lines such that line k is indent_k ++ text[a_k .. b_k] ++ (nothing | a single hyphen), with a_0 == 0, '
                        'b_k <= a_(k+1) (slices in order, never overlapping), everything between two consecutive slices being ASCII spaces followed by at most one line ending, and '
                        'only spaces after the last slice — so nothing but such spaces and line endings is lost, and nothing is duplicated, reordered or invented (U11: wrap, '
@@ -84,7 +88,7 @@ PROPS = {
                        'pipeline, DESIGN.md §2.8, and std\'s str::split / slicing, A4); the Borrowed-variant clause is proved, pointer identity and the last sentence are checked by bounded exhaustive enumeration.',
     },
     'C02': {
-        'units': ['U11', 'U1', 'U6', 'U22'], 'level': 'other', 'trusted': ['A1', 'A4', 'A5', 'A9', 'A12', 'R15'],
+        'units': ['U11', 'U1', 'U6', 'U22'], 'level': 'other', 'trusted': ['A1', 'A4', 'A5', 'A9', 'A12', 'A15', 'A17', 'R15'],
         'proved_part': 'Verus: the line breaker is called with [width - dw(indent of the first line it produces), width - dw(subsequent_indent)] (a precondition on the callee, '
                        'taken from "each line is measured against the indent it is actually rendered with"); wrap_first_fit is greedy-maximal, so every line with >= 2 fragments '
                        'fits; break_words passes words not wider than the limit through unchanged.',
@@ -93,7 +97,7 @@ PROPS = {
                        'finders and is checked by bounded exhaustive enumeration.',
     },
     'C03': {
-        'units': ['U2', 'U23', 'U17', 'U11', 'U24'], 'level': 'other', 'trusted': ['A1', 'A5', 'A6', 'A7', 'A9', 'A11', 'A12', 'A17', 'R17'], 'bec_flavors': ['default'],
+        'units': ['U2', 'U23', 'U17', 'U11', 'U24'], 'level': 'other', 'trusted': ['A1', 'A5', 'A6', 'A7', 'A9', 'A11', 'A12', 'A14', 'A17', 'R17', 'R18', 'R19'], 'bec_flavors': ['default'],
         'proved_part': 'Verus: prefix sums are the left fold of width+whitespace; the closure passed to SMAWK returns exactly the documented cost (per-line penalty, squared gap '
                        'except on the last line, linear overflow penalty, short-last-line penalty, hyphen penalty) over uninterpreted IEEE operations; the result is an ordered partition (U2). '
                        'Last sentence ("wrap/fill ... produce, for each paragraph, such an arrangement of that paragraph\'s fragments"): the dispatch hands the words, every listed width '
@@ -105,7 +109,7 @@ PROPS = {
     },
     'C04': {
         'units': ['U1', 'U2', 'U3', 'U4', 'U5', 'U6', 'U8', 'U9', 'U10', 'U11', 'U12', 'U13', 'U14', 'U15', 'U16', 'U17', 'U18', 'U20', 'U21', 'U22', 'U23', 'U24'], 'level': 'other', 'kani': [K1, K1MIN],
-        'trusted': ['A1', 'A2', 'A3', 'A4', 'A5', 'A6', 'A7', 'A8', 'A9', 'A10', 'A11', 'A12', 'R15', 'R16', 'R17'],
+        'trusted': ['A1', 'A2', 'A3', 'A4', 'A5', 'A6', 'A7', 'A8', 'A9', 'A10', 'A11', 'A12', 'A13', 'A14', 'A15', 'A16', 'A17', 'R15', 'R16', 'R17', 'R18', 'R19'],
         'proved_part': 'Verus: absence of panics (index/slice bounds incl. char boundaries in NonEmptyLines, arithmetic overflow, unwrap on None, callee preconditions) and '
                        'termination for wrap_first_fit, wrap_optimal_fit (Err only from the is_infinite test), skip_ansi_escape_sequence, display_width, NonEmptyLines::next, '
                        'wrap_columns (A11), Word::from, break_words, indent, dedent, fill_inplace (incl. from_utf8().unwrap()), wrap, wrap_single_line, wrap_single_line_slow_path (incl. char-boundary safety of its slices), fill_slow_path, unfill (incl. the #466 class of slice panics), WordSplitter::split_points, WrapAlgorithm::wrap, strip_ansi_escape_sequences, find_words_ascii_space, find_words_unicode_break_properties, split_words and Word::break_apart (closures, R16), fill, refill, Options::new / from / the setters, LineEnding::as_str, LineNumbers::get (R17), and the two functions of the smawk crate optimal-fit runs (online_column_minima, smawk_inner; U24).',
@@ -117,7 +121,7 @@ PROPS = {
                        'as are the dependency internals and the Box<dyn Iterator> dispatch of find_words.',
     },
     'C05': {
-        'units': ['U3', 'U11', 'U12', 'U17', 'U16', 'U14', 'U6'], 'level': 'other', 'kani': [K1, K1MIN, K3], 'trusted': ['A2', 'A3', 'A4', 'A8', 'A9', 'A12', 'A16', 'R15', 'R16'],
+        'units': ['U3', 'U11', 'U12', 'U17', 'U16', 'U14', 'U6'], 'level': 'other', 'kani': [K1, K1MIN, K3], 'trusted': ['A1', 'A2', 'A3', 'A4', 'A5', 'A8', 'A9', 'A12', 'A15', 'A16', 'A17', 'R15', 'R16'],
         'proved_part': 'Verus + Kani: display_width(t) <= t.len() for every text — the soundness lemma of the byte-length shortcut (U3, K1). U11: when wrap_single_line takes the shortcut it '
                        'appends exactly one line, indent-free, borrowed, equal to the paragraph with trailing spaces removed; for a text without the line ending that is wrap\'s whole result. '
                        'U11 again, for first-fit, the built-in splitters and widths up to 2^53: wrap_single_line_slow_path, ENTERED UNDER THE SHORTCUT\'S CONDITION (line.len() < width, no '
@@ -132,12 +136,11 @@ PROPS = {
                        'the first sentence and the optimal-fit / custom-splitter cases of the second are checked by bounded exhaustive enumeration. Known finding KF5 lies in the first sentence.',
     },
     'C06': {
-        'units': ['U1', 'U2', 'U17', 'U23', 'U24'], 'level': 'proof', 'trusted': ['A1', 'A5', 'A6', 'A7', 'A9', 'A11', 'A12', 'A14', 'A15', 'R17'],
+        'units': ['U1', 'U2', 'U17', 'U23', 'U24'], 'level': 'proof', 'trusted': ['A1', 'A5', 'A6', 'A7', 'A9', 'A11', 'A12', 'A14', 'A15', 'R17', 'R18', 'R19'],
         'proved_part': 'Verus, all inputs: both algorithms return >= 1 line, the lines\' views concatenate to fragments@, each line is the subrange between consecutive breaks, '
                        'lines are non-empty for non-empty input, exactly one empty line for empty input (optimal-fit: when it returns Ok). The back-pointer table optimal-fit walks has the shape it needs for every cost function: '
-                       'smawk::online_column_minima and smawk_inner are verified in U24 on the crate\'s own source (no panic, termination, shape), so the dependency contract that used to be assumed (A6) is a proved one.',
-        'bounded_part': 'BEC cross-check with real IEEE floats (negative, fractional, huge), empty width lists, pointer identity of the returned slices. '
-                        'U17 additionally proves that WrapAlgorithm::wrap (the dispatch used by wrap) hands that partition on, and that the Word accessors are pure functions of the fields.',
+                       'smawk::online_column_minima and smawk_inner are verified in U24 on the crate\'s own source (no panic, termination, shape), so the dependency contract that used to be assumed (A6) is a proved one. U17 additionally proves that WrapAlgorithm::wrap (the dispatch used by wrap) hands that partition on, and that the Word accessors are pure functions of the fields.',
+        'bounded_part': 'BEC cross-check with real IEEE floats (negative, fractional, huge), empty width lists, pointer identity of the returned slices.',
         'explanation': 'Proof: the statement is the postcondition of wrap_first_fit and wrap_optimal_fit, discharged by Verus on the extracted functions; BEC re-checks it by execution.',
     },
     'C07': {
@@ -190,7 +193,7 @@ PROPS = {
         'explanation': 'Proof: display_width equals the spec function written from the statement, for all texts (Verus); per-char facts for all chars (Kani, and exhaustive enumeration).',
     },
     'C11': {
-        'units': ['U6', 'U13', 'U3', 'U20'], 'level': 'proof', 'trusted': ['A3', 'A4', 'A12', 'A13', 'R16'],
+        'units': ['U6', 'U13', 'U3', 'U20'], 'level': 'proof', 'trusted': ['A2', 'A3', 'A4', 'A9', 'A12', 'A13', 'R16'],
         'proved_part': 'Verus, all lines: Word::from — word ++ whitespace is the input, whitespace is spaces only, the word does not end in a space, width == display width, no penalty (U6). '
                        'ASCII separator (U13): every word is Word::from(line[s0..s1]) where s1 is the first position after s0 at which a space is followed by a non-space '
                        '(or the end of the line) — the boundaries are exactly those positions — and the collected words tile the line. '
@@ -204,7 +207,7 @@ PROPS = {
                        '"the UAX #14 opportunities", with only its shape assumed) and the std iterator behaviour of from_fn/filter/find/collect (A4, R16).',
     },
     'C12': {
-        'units': ['U6', 'U14', 'U15', 'U16'], 'level': 'proof', 'trusted': ['A3', 'A4', 'A9', 'A12', 'R15'],
+        'units': ['U6', 'U14', 'U15', 'U16'], 'level': 'proof', 'trusted': ['A3', 'A4', 'A9', 'A12', 'R15', 'R16'],
         'proved_part': 'Verus: break_words (at I = Vec) is lossless and the identity when no word is wider than the limit. split_words (U14, both closures after closure '
                        'conversion R16), for every word and every list of split points that is strictly increasing and made of char boundaries inside the word: the pieces are '
                        'word[p_(k-1)..p_k], they concatenate to the word, a piece followed by another gets "-" exactly when the text before the cut does not end in \'-\', the last '
@@ -221,14 +224,15 @@ PROPS = {
                        'contracts audited in DESIGN.md §2.8 (A9); custom splitters are opaque (A15).',
     },
     'C13': {
-        'units': ['U3', 'U15', 'U20'], 'level': 'other', 'trusted': ['A2', 'A4', 'A8', 'A12', 'R16'],
+        'units': ['U3', 'U15', 'U20'], 'level': 'other', 'trusted': ['A2', 'A4', 'A8', 'A9', 'A12', 'A13', 'R16'],
         'proved_part': 'Verus lemma: well-formed sequences contribute nothing to display_width, so coloured and stripped words have equal widths. Force-breaking (U15, '
-                       'Word::break_apart after closure conversion) cuts only at fresh positions of the word — never inside an escape sequence, none is dropped.',
+                       'Word::break_apart after closure conversion) cuts only at fresh positions of the word — never inside an escape sequence, none is dropped. The Unicode word finder (U20) '
+                       'places every boundary at a position of the original line that is not inside an escape sequence (it works on the stripped text and maps back).',
         'bounded_part': 'BEC: strip(wrap(coloured)) == wrap(strip(coloured)); no sequence cut or dropped.',
         'explanation': 'Mixed: width-neutrality of sequences is proved; the end-to-end statement is relational and bounded.',
     },
     'C14': {
-        'units': [], 'level': 'exploration', 'trusted': [],
+        'units': [], 'level': 'exploration', 'trusted': ['A13'],
         'bounded_part': 'BEC only.',
         'explanation': 'Bounded only: idempotence is relational over two calls of fill; no single-call contract within reach expresses it.',
     },
@@ -245,7 +249,7 @@ PROPS = {
                        'NonEmptyLines and str::lines is a proved lemma); the round-trip half is relational and checked by bounded exhaustive enumeration (known finding KF2 lies in it).',
     },
     'C16': {
-        'units': ['U21'], 'level': 'other', 'trusted': ['A3', 'A4', 'R15'],
+        'units': ['U21', 'U18'], 'level': 'other', 'trusted': ['A3', 'A4', 'A9', 'A12', 'R15'],
         'proved_part': 'Verus, all inputs (U21): refill(x, o2) == fill(unfill(x).text without its final line ending, o2 with the two indents unfill(x) detected) '
                        '++ (o2\'s line ending if one was removed) — the composition in C16\'s equation, with unfill and fill abstract. U18: unfill\'s structural contract '
                        '(indents are prefixes made of prefix characters, no inner line break, line-ending rule).',
@@ -264,16 +268,16 @@ PROPS = {
         'explanation': 'Mixed: fill_inplace has a complete functional contract relative to its two callees; agreement with wrap is relational and bounded.',
     },
     'C18': {
-        'units': ['U9'], 'level': 'proof', 'trusted': ['A3', 'A4', 'A12'],
+        'units': ['U9'], 'level': 'other', 'trusted': ['A3', 'A4', 'A12'],
         'proved_part': 'Verus, all inputs (U9): there is a margin length mlen such that, when some line has text, a string m of that length is the LONGEST string of '
                        'whitespace characters that is a prefix of every line containing a non-whitespace character (is_margin: common, and no longer common one exists); the '
                        'result is every line with text without its first mlen characters, every whitespace-only line empty, one output line per input line (each '
                        'followed by a newline), the final newline removed exactly when the input does not end in one. `str::lines` and `char::is_whitespace` are abstract (A4).',
         'bounded_part': 'BEC: the same against an independent implementation on every string in scope, plus the corollaries of the statement (idempotence; '
                         'dedent(indent(s, p)) == dedent(s) for whitespace prefixes), which are relational and not mechanically derived from the postcondition.',
-        'explanation': 'Known finding KF4: the idempotence corollary fails when a line\'s own text ends in a carriage return ("a\\r\\r\\n"); the margin rule itself is proved. '
-                       'Proof: the first two sentences of the statement are the postcondition of dedent, discharged by Verus on the extracted function (three loops, '
-                       'std iterators through assumed std contracts). The "therefore" corollaries are cross-checked by bounded exhaustive enumeration.',
+        'explanation': 'Mixed, mostly proved: the first two sentences of the statement (the margin rule, the shape of the output) are the postcondition of dedent, discharged by Verus on '
+                       'the extracted function (three loops, std iterators through assumed std contracts). The two "therefore" corollaries are relational over two calls and are '
+                       'checked by bounded exhaustive enumeration only; known finding KF4: idempotence fails when a line\'s own text ends in a carriage return ("a\\r\\r\\n").',
     },
     'C19': {
         'units': ['U8'], 'level': 'proof', 'trusted': ['A3', 'A4', 'A12'],
